@@ -66,6 +66,8 @@ type Term struct {
 	defGen  int // solver generation in which this term was defined
 	evEpoch int
 	evVal   uint64
+	fdState uint8 // finite-domain filter: which listed variable (if exactly one) the term depends on (fd.go)
+	fdv     *Term
 }
 
 type termKey struct {
@@ -102,6 +104,7 @@ func newTermTable() *termTable {
 
 // ResetTerms drops all terms (definitions of named functions are kept).
 func ResetTerms() {
+	fdReset()
 	defs := tt.defs
 	tt = newTermTable()
 	tt.defs = defs
